@@ -351,3 +351,25 @@ Example deep_program_nonvacuous :
   let ops := OSet (CIdx 0) [x61] (KB, 1%Z) :: repeat (OAttach (CIdx 0)) 3 ++ OAttach (CIdx 1) :: repeat (OAttach (CIdx 0)) 36 ++ [ODetach 3] in
   st_cap (t_stk (fst (run tstate0 ops))) = 62 /\ s_stack (srun sstate0 ops) = [0; 0; 0].
 Proof. vm_compute. split; reflexivity. Qed.
+
+(* non-vacuity of the remaining hypotheses *)
+Example set_values_get_nonvacuous :
+  let h := fst (set_value [] root [x6b] (KI, 1%Z)) in
+  let c := snd (set_value [] root [x6b] (KI, 1%Z)) in
+  let b := [([x6b], (KI, 2%Z)); ([x61], (KB, 1%Z)); ([x6b], (KI, 3%Z))] in
+  ctx_ok h c /\ b <> [] /\
+  get_value (fst (set_values h c b)) (snd (set_values h c b)) [x6b] = (KI, 2%Z) /\
+  get_value h c [x6b] = (KI, 1%Z).
+Proof. split; [cbn; lia|]. split; [discriminate|]. vm_compute. split; reflexivity. Qed.
+
+Example stack_wf_nonvacuous :
+  let s := fold_left sop_stack [SPush (Some 1); SPush (Some 2); SPush (Some 3); SPop; SPush (Some 4); SDetach (Some 1); SPush None] stack0 in
+  stack_wf s /\ abs s = [None] /\ st_cap s = 6.
+Proof.
+  split; [apply stack_refines_list_ops; apply stack0_wf|]. vm_compute. split; reflexivity.
+Qed.
+
+Example reachable_nonvacuous :
+  let t := fork (fst (run tstate0 [OSet (CIdx 0) [x61] (KB, 1%Z); OAttach (CIdx 1); OScope 2%Z])) in
+  reachable t /\ length (t_pool t) = 3 /\ t_toks t = [TBorrowed (Some 0); TDead].
+Proof. split; [apply reach_fork; apply (reachable_run _ _ reach_init)|]. vm_compute. split; reflexivity. Qed.
